@@ -13,6 +13,8 @@ CONSTANTS
   ClassComments <- NoComment
   TopAlpha <- FTTopsT
   MaxTops = 1
+  AliasAlpha <- None
+  MaxAliases = 0
   CmdKinds <- FTCmdsT
 INVARIANT SafeVis
 INVARIANT SafeAccess
